@@ -1,5 +1,6 @@
-/- Driver domain `world`: entity ops (storages are added by Model/World). -/
+/- Driver domain `world`: parsing and printing of world-domain ops and results. -/
 import Driver.Proto
+import SpecsModel.Spec.WorldSpec
 namespace SpecsModel.Driver
 
 def parseEOp (ts : List String) : Option EOp :=
@@ -46,12 +47,236 @@ def showERes : ERes → String
   | .skip => "skip"
   | .panic why => "panic(" ++ why ++ ")"
 
-/-- Equality of results as far as the protocol shows them (del_now/del_atomic do not report a
-    position). -/
+/-- Equality of entity results as far as the protocol shows them (del_now/del_atomic do not report
+    a position). -/
 def eresAgree (op : EOp) (impl model : ERes) : Bool :=
   match op, impl, model with
   | .delNow _, .kill (.err _), .kill (.err _) => true
   | .delAtomic _, .kill (.err _), .kill (.err _) => true
   | _, a, b => a == b
+
+-- ------------------------------------------------------------------------------------------
+
+def parseKV? (s : String) : Option (Nat × Int) :=
+  match s.splitOn ":" with
+  | [k, v] => do
+    let k ← k.toNat?
+    let v ← parseInt? v
+    pure (k, v)
+  | _ => none
+
+def parseDW? : List String → Option (Nat × Option Int)
+  | [d] => d.toNat?.map (fun d => (d, none))
+  | [d, w] => do
+    let d ← d.toNat?
+    if w.startsWith "w=" then
+      let v ← parseInt? (w.drop 2).toString
+      pure (d, some v)
+    else none
+  | _ => none
+
+def parseMode? : String → Option (Bool × Bool)
+  | "now" => some (false, false)
+  | "now_dropped" => some (false, true)
+  | "atomic" => some (true, false)
+  | "atomic_dropped" => some (true, true)
+  | _ => none
+
+def parseRAct? (s : String) : Option RAct :=
+  match s.splitOn ":" with
+  | ["skip"] => some .skip
+  | ["get"] => some .get
+  | ["mut", d] => d.toNat?.map (fun d => .getMut d none)
+  | ["mut", d, w] => do
+    let d ← d.toNat?
+    let w ← parseInt? w
+    pure (.getMut d (some w))
+  | ["other", h] => (parseSlot? h).map .getOther
+  | ["othermut", h, d] => do
+    let h ← parseSlot? h
+    let d ← d.toNat?
+    pure (.getOtherMut h d none)
+  | ["othermut", h, d, w] => do
+    let h ← parseSlot? h
+    let d ← d.toNat?
+    let w ← parseInt? w
+    pure (.getOtherMut h d (some w))
+  | _ => none
+
+/-- Split a token list on `;` at bracket depth 0. -/
+def splitScript (ts : List String) : List (List String) :=
+  let (acc, cur, _) := ts.foldl (fun (st : List (List String) × List String × Nat) t =>
+    let (acc, cur, depth) := st
+    if t == "[" then (acc, t :: cur, depth + 1)
+    else if t == "]" then (acc, t :: cur, depth - 1)
+    else if t == ";" && depth == 0 then (if cur.isEmpty then acc else cur.reverse :: acc, [], depth)
+    else (acc, t :: cur, depth)) ([], [], 0)
+  (if cur.isEmpty then acc else cur.reverse :: acc).reverse
+
+partial def parseWOp (ts : List String) : Option WOp :=
+  match ts with
+  | ["reg", k, p] => do
+    let k ← k.toNat?
+    let p ← p.toNat?
+    pure (.reg k p)
+  | "createw" :: mode :: cs => do
+    let (a, d) ← parseMode? mode
+    let cs ← mapM? parseKV? cs
+    pure (.createWith a d cs)
+  | ["get", k, h] => do pure (.get (← k.toNat?) (← parseSlot? h))
+  | "getmut" :: k :: h :: rest => do
+    let (d, w) ← parseDW? rest
+    pure (.getMut (← k.toNat?) (← parseSlot? h) d w)
+  | ["has", k, h] => do pure (.has (← k.toNat?) (← parseSlot? h))
+  | ["ins", k, h, v] => do pure (.ins (← k.toNat?) (← parseSlot? h) (← parseInt? v))
+  | ["rem", k, h] => do pure (.rem (← k.toNat?) (← parseSlot? h))
+  | "entry_or" :: k :: h :: v :: rest => do
+    let (d, w) ← parseDW? rest
+    pure (.entry (← k.toNat?) (← parseSlot? h) (.orInsert (← parseInt? v) d w))
+  | ["entry_rep", k, h, v] => do pure (.entry (← k.toNat?) (← parseSlot? h) (.replace (← parseInt? v)))
+  | ["entry_rem", k, h] => do pure (.entry (← k.toNat?) (← parseSlot? h) .remove)
+  | "mut_or_default" :: k :: h :: rest => do
+    let (d, w) ← parseDW? rest
+    pure (.mutOrDefault (← k.toNat?) (← parseSlot? h) d w)
+  | ["count", k] => k.toNat?.map .count
+  | ["empty", k] => k.toNat?.map .isEmpty
+  | ["mask", k] => k.toNat?.map .mask
+  | ["clear", k] => k.toNat?.map .clear
+  | ["drain", k, n] => do pure (.drain (← k.toNat?) (← n.toNat?))
+  | ["slice", k] => k.toNat?.map .slice
+  | ["emit", k, b] => do pure (.emit (← k.toNat?) (b == "t"))
+  | ["events", k] => k.toNat?.map .events
+  | ["lazy_ins", k, h, v] => do pure (.lazyIns (← k.toNat?) (← parseSlot? h) (← parseInt? v))
+  | "lazy_ins_all" :: k :: items => do
+    let items ← mapM? (fun (s : String) =>
+      match s.splitOn ":" with
+      | [h, v] => do pure ((← parseSlot? h), (← parseInt? v))
+      | _ => none) items
+    pure (.lazyInsAll (← k.toNat?) items)
+  | ["lazy_rem", k, h] => do pure (.lazyRem (← k.toNat?) (← parseSlot? h))
+  | "lazy_create" :: cs => (mapM? parseKV? cs).map .lazyCreate
+  | "lazy_exec" :: "[" :: rest =>
+    match rest.reverse with
+    | "]" :: innerRev =>
+      (mapM? parseWOp (splitScript innerRev.reverse)).map .lazyExec
+    | _ => none
+  | "rjoin" :: k :: m :: acts => do
+    let acts ← mapM? parseRAct? acts
+    pure (.rjoin (← k.toNat?) (m == "m") acts)
+  | ["drop_world"] => some .dropWorld
+  | ts => (parseEOp ts).map .ent
+
+def parseOptInt? : List String → Option (Option Int)
+  | ["none"] => some none
+  | ["some", v] => (parseInt? v).map some
+  | _ => none
+
+def parsePair? (s : String) : Option (Nat × Int) := parseKV? s
+
+def parseCEv? (s : String) : Option CEv :=
+  let rest := (s.drop 1).toString
+  if s.startsWith "I" then rest.toNat?.map .inserted
+  else if s.startsWith "M" then rest.toNat?.map .modified
+  else if s.startsWith "R" then rest.toNat?.map .removed
+  else none
+
+def parseItem? (s : String) : Option (Nat × ItemRes) :=
+  match s.splitOn ":" with
+  | [i, r] => do
+    let i ← i.toNat?
+    if r == "-" then pure (i, .skip)
+    else if r == "none" then pure (i, .opt none)
+    else if r.startsWith "v=" then pure (i, .val (← parseInt? (r.drop 2).toString))
+    else if r.startsWith "some=" then pure (i, .opt (some (← parseInt? (r.drop 5).toString)))
+    else none
+  | _ => none
+
+def parseOccOpt? (s : String) : Option (Nat × Option Int) :=
+  match s.splitOn ":" with
+  | [i, v] => do
+    let i ← i.toNat?
+    if v == "-" then pure (i, none) else pure (i, some (← parseInt? v))
+  | _ => none
+
+def parseWRes (op : WOp) (ts : List String) : Option WRes :=
+  match op, ts with
+  | _, ["panic"] => some (.panic "impl")
+  | _, ["nostore"] => some .noStore
+  | .ent .merge, "acts" :: tags => (mapM? String.toNat? tags).map .acts
+  | .ent eop, ts => (parseERes eop ts).map .e
+  | _, ["skip"] => some .skip
+  | .reg .., ["ok"] | .clear _, ["ok"] | .emit .., ["ok"] => some .unit
+  | .createWith .., ["e", e] | .lazyCreate _, ["e", e] => (parseEntity? e).map (fun e => .e (.ent e))
+  | .get .., ts | .getMut .., ts | .rem .., ts | .mutOrDefault .., ts => (parseOptInt? ts).map .opt
+  | .has .., ["t"] | .isEmpty _, ["t"] => some (.bool true)
+  | .has .., ["f"] | .isEmpty _, ["f"] => some (.bool false)
+  | .ins .., ["ins"] => some (.ins .inserted)
+  | .ins .., ["rep", v] => (parseInt? v).map (fun v => .ins (.replaced v))
+  | .ins .., ["err"] => some (.ins .wrongGen)
+  | .entry .., ["err"] => some (.entry .wrongGen)
+  | .entry .., ["occ", v] => (parseInt? v).map (fun v => .entry (.occupied v))
+  | .entry .., ["vac"] => some (.entry .vacant)
+  | .count _, ["n", n] => n.toNat?.map .nat
+  | .mask _, "ids" :: l => (mapM? String.toNat? l).map .ids
+  | .drain .., "pairs" :: l => (mapM? parsePair? l).map .pairs
+  | .events _, "ev" :: l => (mapM? parseCEv? l).map .events
+  | .slice _, ["slice", "none"] => some (.slice .none)
+  | .slice _, "slice" :: "opt" :: len :: l => do
+    pure (.slice (.opt (← len.toNat?) (← mapM? parseOccOpt? l)))
+  | .slice _, "slice" :: "dflt" :: len :: nd :: l => do
+    pure (.slice (.dflt (← len.toNat?) (← mapM? parsePair? l) (← nd.toNat?)))
+  | .slice _, "slice" :: "dense" :: l => (mapM? parseInt? l).map (fun l => .slice (.dense l))
+  | .lazyIns .., ["q", t] | .lazyInsAll .., ["q", t] | .lazyRem .., ["q", t] | .lazyExec _, ["q", t] =>
+    t.toNat?.map .queued
+  | .rjoin .., "items" :: l => (mapM? parseItem? l).map .items
+  | .dropWorld, ["dropped"] => some .dropped
+  | _, _ => none
+
+def showOptInt : Option Int → String
+  | some v => s!"some {v}"
+  | none => "none"
+
+def showCEv : CEv → String
+  | .inserted i => s!"I{i}"
+  | .modified i => s!"M{i}"
+  | .removed i => s!"R{i}"
+
+def showWRes : WRes → String
+  | .e r => showERes r
+  | .unit => "ok"
+  | .opt v => showOptInt v
+  | .bool true => "t"
+  | .bool false => "f"
+  | .ins .inserted => "ins"
+  | .ins (.replaced v) => s!"rep {v}"
+  | .ins .wrongGen => "err"
+  | .entry .wrongGen => "err"
+  | .entry (.occupied v) => s!"occ {v}"
+  | .entry .vacant => "vac"
+  | .nat n => s!"n {n}"
+  | .ids l => " ".intercalate ("ids" :: l.map toString)
+  | .pairs l => " ".intercalate ("pairs" :: l.map (fun p => s!"{p.1}:{p.2}"))
+  | .events l => " ".intercalate ("ev" :: l.map showCEv)
+  | .slice .none => "slice none"
+  | .slice (.opt len l) => " ".intercalate ("slice" :: "opt" :: toString len :: l.map (fun p => s!"{p.1}:" ++ (match p.2 with | some v => toString v | none => "-")))
+  | .slice (.dflt len l nd) => " ".intercalate ("slice" :: "dflt" :: toString len :: toString nd :: l.map (fun p => s!"{p.1}:{p.2}"))
+  | .slice (.dense l) => " ".intercalate ("slice" :: "dense" :: l.map toString)
+  | .acts l => " ".intercalate ("acts" :: l.map toString)
+  | .items l => " ".intercalate ("items" :: l.map (fun p => s!"{p.1}:" ++ (match p.2 with
+      | .skip => "-" | .val v => s!"v={v}" | .opt (some v) => s!"some={v}" | .opt none => "none")))
+  | .queued t => s!"q {t}"
+  | .dropped => "dropped"
+  | .noStore => "nostore"
+  | .skip => "skip"
+  | .panic why => "panic(" ++ why ++ ")"
+
+/-- Equality of results as far as the protocol shows them. -/
+def wresAgree (op : WOp) (impl model : WRes) : Bool :=
+  match op, impl, model with
+  | .ent eop, .e a, .e b => eresAgree eop a b
+  | _, a, b => a == b
+
+/-- The op kind (first token) used for per-property projections. -/
+def opKind (l : String) : String := (toks l).head?.getD ""
 
 end SpecsModel.Driver
